@@ -424,3 +424,55 @@ def c10_filters(F, R):
                     R.bad(f"{short(ty)}|{m['name']}|{short(t)}", f"{short(ty)} filters what it reports through `{ekey(m)[:50]}` on a collection of `{short(t)}`, whose `==` ignores {coarse[t]}: two diagnostics at different places count as one, and which of them is reported depends on the (hash) order they are met in", loc(m))
     if n == 0:
         R.ok("lints", detail=f"{len(lints)} lints: no report-once filter keyed by a type with a coarse ==")
+
+
+@rule("C10", "G2.per-function-duplication", floor=1)
+def c10_perfunc(F, R):
+    """a lint that walks the *functions* and reports something located on an instruction (not on the function) meets that instruction once per function that contains it: functions that overlap - a shared tail, one function falling into another - would get the same diagnostic twice, identical in kind, place, message and related information. Such a report is filtered through a "reported already" test whose key is exact (see G2.report-once-filters-use-exact-keys)"""
+    from .p_cfg import pass_impls, LINTPASS
+    from .p_parse import parent_map
+    LE = "riscv_analysis::passes::lint_error::LintError"
+    lints = pass_impls(F, LINTPASS)
+    n = 0
+    for ty, rp in sorted(lints.items()):
+        g = F.fns.get(rp)
+        if not g or "hir" not in g:
+            continue
+        body = g["hir"]["value"]
+        pm = parent_map(body)
+        for fl in for_loops(body):
+            it = fl["iter"]
+            if not any(m.get("k") == "MethodCall" and m["name"] == "functions" and ekey(m["recv"]).lstrip("&*") in ("cfg",) for m in walk(it, pats=False)):
+                continue
+            fvars = pat_names(fl["pat"]) if fl.get("pat") else set()
+            for push in walk(fl["body"], pats=False):
+                if not (push.get("k") == "MethodCall" and push["name"] in ("push", "push_real") and push["args"]):
+                    continue
+                ctor = [c for c in walk(push["args"][0], pats=False) if c.get("k") == "Call" and (callee_of(c) or "").startswith(LE + "::")]
+                if not ctor:
+                    continue
+                n += 1
+                v = short(callee_of(ctor[0]))
+                carries_func = any(x.get("k") == "Path" and x.get("res") in fvars for a_ in ctor[0]["args"] for x in walk(a_, pats=False))
+                key = f"{short(ty)}|{v}"
+                if carries_func:
+                    R.ok(key, detail="the diagnostic names the function it was found for (distinct per function)", where=loc(push))
+                    continue
+                # needs a report-once guard: an enclosing `if` inside the loop whose condition asks a collection declared outside the loop
+                guarded = False
+                x = push
+                while id(x) in pm and x is not fl["body"]:
+                    x = pm[id(x)]
+                    if x.get("k") == "If":
+                        for m in walk(x["cond"], pats=False):
+                            if m.get("k") == "MethodCall" and m["name"] in ("contains", "insert", "any", "contains_key") and peel(m["recv"]).get("k") in ("Path", "MethodCall", "AddrOf", "Field"):
+                                root = ekey(m["recv"]).lstrip("&*").split(".")[0]
+                                declared_outside = any(st.get("k") == "Let" and st["pat"].get("k") == "PBinding" and st["pat"]["name"] == root and not any(y is st for y in walk(fl["body"], pats=False)) for st in walk(body, pats=False))
+                                if declared_outside:
+                                    guarded = True
+                if guarded:
+                    R.ok(key, detail="reported through a 'reported already' test kept across the functions", where=loc(push))
+                else:
+                    R.bad(key, f"{short(ty)} walks the functions and pushes `{v}`, whose payload does not say which function it was found for, without remembering what it has reported: an instruction shared by two functions (`fa:` falling into `fb:`) gets the identical diagnostic twice", loc(push))
+    if n == 0:
+        R.ok("none", detail="no lint pushes from inside a loop over the functions", trivial=True)
